@@ -703,7 +703,14 @@ class _DataOperationContextInjectorProbeNode(_DataOperationNode):
     @classmethod
     def get_created_keys(cls) -> List[str]:
         """Return context keys injected by this node."""
-        return [cls.context_key]
+        keys = [cls.context_key]
+        # plus the keys the wrapped operation declares (e.g. ``<var>_values``)
+        try:
+            declared = list(getattr(cls.processor, "get_created_keys", lambda: [])())
+        except Exception:
+            declared = []
+        keys.extend(key for key in declared if key not in keys)
+        return keys
 
     @override
     def _process_single_item_with_context(self, payload: Payload) -> Payload:
